@@ -7,6 +7,7 @@ import random, shutil
 from vlib import *
 from crashcheck import *
 import c01
+import startupcheck
 
 
 RMEM = 180
@@ -15,7 +16,8 @@ RMEM = 180
 def run(res, replay=None):
     res.rule = ("base crash images sampled from serial histories as in C01/C02 (no torn writes); for each, recovery is run with tracing and EVERY prefix of its own I/O trace "
                 "(page writes of redone/undone pages, log truncation, new log writes) is applied to the image and recovery is run again (depth 2; a sample continued to depth 3); "
-                "additionally recovery is repeated 3 times on the same image; non-trivial = distinct nested image whose first recovery performed >= 1 page write before the second crash")
+                "additionally recovery is repeated 3 times on the same image; a third of the nested images get the durability follow-up (commit on an existing page, kill, restart) and their whole life "
+                "(fresh database, first crash, interrupted restart, second restart) is replayed through the extracted start-up model, which must accept the LSN of every record the engine wrote; non-trivial = distinct nested image whose first recovery performed >= 1 page write before the second crash")
     res.trusted = COMMON_TRUSTED + ["hook H1 and the python image materialiser (lib/crashlib.py)"]
     res.assumptions = ["crash points are I/O boundaries of the recovery run; torn writes inside recovery are not enumerated"]
     go_ok = standard_build(res)
@@ -58,7 +60,12 @@ def run(res, replay=None):
                         # a third of the nested images (and every one cut right after the log truncation) also get the durability
                         # follow-up: commit new work after the repeated recovery, crash, restart, look for it
                         dur = (k > 0 and rtrace[k - 1][0] == "G") or (k % 3 == 1)
-                        out = restart_on(img, TABLES, mem_kb=RMEM, durability=dur)
+                        out = restart_on(img, TABLES, mem_kb=RMEM, durability=dur, want_trace=dur)
+                        if dur:
+                            shutil.rmtree(out.get("dir", "/nonexistent"), ignore_errors=True)
+                            if out["status"] == "ok":
+                                # the whole life (fresh database .. first crash, interrupted restart, second restart) for the start-up model
+                                out["life"] = startupcheck.life([trace[:p], rtrace[:k], out.get("trace") or []])
                         if out["status"] == "ok" and rng.random() < 0.15:
                             # depth 3: crash the second recovery at its first page write boundary as well
                             o2 = restart_on(img, TABLES, mem_kb=RMEM, probe=False, want_trace=True)
@@ -79,7 +86,19 @@ def run(res, replay=None):
                         img = image_at(t2, len(t2), base=img)
                         out = o
                     return job, restart_on(img, TABLES, mem_kb=RMEM, durability=True)
-                for (kind, k), out in parallel(one, jobs):
+                results = parallel(one, jobs)
+                lives = [(k, out["life"]) for (kind, k), out in results if "life" in out] + [("full", startupcheck.life([trace[:p], rtrace]))]
+                rcs, souts, serr = startupcheck.run_driver([l for _, l in lives])
+                if rcs != 0 or len(souts) != len(lives):
+                    res.broken.append("start-up model driver failed (rc=%d): %s" % (rcs, serr))
+                else:
+                    res.extra["startup_lives_checked"] = res.extra.get("startup_lives_checked", 0) + len(lives)
+                    for (k, l), o in zip(lives, souts):
+                        if not o.startswith("ok") and len(res.mismatches) < 5:
+                            at = int(o.split("at=")[1]) if "at=" in o else 0
+                            res.mismatches.append((c01.render_replay(h, p, None) + "# nested %s; lines for build/startup_driver around the rejected one:\n%s\n" % (k, "\n".join(x[:120] for x in l[max(0, at - 8):at + 2])),
+                                                   "the start-up model (Model/Startup.v) rejects the engine's I/O trace of a restart: %s (code 1: a record's LSN is not the next LSN; code 2: the first record after the log truncation does not carry greatest LSN + 1)" % o))
+                for (kind, k), out in results:
                     nontriv = kind == "nested" and any(e[0] == "P" for e in rtrace[:k])
                     res.note_case("%s|%d|%s|%d" % (" ".join(h.desc), p, kind, k), nontriv)
                     bad = None
